@@ -23,6 +23,11 @@ def all_proofs():
           mutants=[('eof_force_keeps_more', r'options::nl_end_of_file\(\) == IARF_FORCE\n', 'false\n', 'postcondition'),
                    ('eof_min_from_sof', r'pc->SetNlCount\(options::nl_end_of_file_min\(\)\);', 'pc->SetNlCount(options::nl_start_of_file_min());', 'postcondition'),
                    ('frag_ignored', r'if \(  cpd.frag_cols == 0\n      && \(  \(options::nl_end_of_file\(\) & IARF_REMOVE\)', 'if (  true\n      && (  (options::nl_end_of_file() & IARF_REMOVE)', 'postcondition')]),
+        Proof('can_increase_nl', impl='contracts/C20/cinl.impl.cpp', spec=SPEC, enforce='can_increase_nl/can_increase_nl_contract', canaries=2,
+              rules={'can_increase_nl': []}, expect=['can_increase_nl_contract.postcondition'], functions=['newlines/can_increase_nl.cpp:can_increase_nl'],
+              assumed=['the previous non-comment chunk / previous chunk / next chunk of the newline are three arbitrary chunks (navigation not under contract); nl_squeeze_ifdef off'],
+              mutants=[('namespace_rule_first', r'(?s)(   if \(next->Is\(CT_BRACE_CLOSE\)\)\n   \{.*?\n   \}\n\n)(   if \(prev->Is\(CT_BRACE_CLOSE\)\)\n   \{.*?\n   \}\n\n)', r'\2\1', 'postcondition'),
+                       ('eat_after_open_dropped', r'if \(options::eat_blanks_after_open_brace\(\)\)', 'if (false)', 'postcondition')]),
         P('too_big_for_nl_max', replace=['exit/exit_contract'], functions=['too_big_for_nl_max.cpp:too_big_for_nl_max'],
           assumed=['exit_contract (never returns)'],
           mutants=[('one_comparison_dropped', r'if \(options::nl_after_class\(\) > nl_max_local\)', 'if (false)', 'postcondition'),
@@ -34,7 +39,8 @@ PROOFS = all_proofs()
 EXPLANATION = ('Kernel of C20: blank_line_max caps nl_count at the option value (min), blank_line_set sets it, both only when the option is > 0 and the chunk is real; '
                'newlines_eat_start_end implements the documented ignore/add/remove/force policy with the _min values at both ends of the file (ghost list ends); '
                'too_big_for_nl_max returns normally only if every blank-line count option (set generated from the option documentation) is <= nl_max.')
-K = ['K1 blank_line_max / blank_line_set', 'K2 newlines_eat_start_end: exact start/end-of-file policy', 'K3 too_big_for_nl_max covers every count option of the registry']
+K = ['K5 can_increase_nl: with eat_blanks_before_close_brace / eat_blanks_after_open_brace a newline next to the brace may not grow (result false => do_blank_lines forces one line break), except for the documented overrides nl_inside_namespace > 0 and nl_inside_empty_func > 0',
+     'K1 blank_line_max / blank_line_set', 'K2 newlines_eat_start_end: exact start/end-of-file policy', 'K3 too_big_for_nl_max covers every count option of the registry']
 G = ['do_blank_lines applies blank_line_max(pc, nl_max) to every newline chunk not after CT_IGNORED and the +-1 line_added bookkeeping stays within nl_max (600-line function, not under contract)',
      'newlines_cleanup_braces, newline_add_*, eat_blanks_* (brace_pair.cpp) and the four-pass loop in uncrustify_file: not under contract',
      'main() calls too_big_for_nl_max() iff nl_max > 0, after the config is loaded and before any source is read (10-line call site, read, not sliced)',
